@@ -485,6 +485,10 @@ def gen_step(r, root):
             sib = [f for f in files if os.path.dirname(f) == os.path.dirname(p)]
             if sib and r.random() < 0.5:
                 new = os.path.basename(r.choice(sib))
+            elif r.random() < 0.45:
+                # same destination, different spelling: the literal link target is what counts
+                new = r.choice([b"./" + old, old + b"/", old.replace(b"/", b"//") if b"/" in old else b".//" + old,
+                                b"x/../" + old, old + b"/."])
             if new == old:
                 continue
             return [{"op": "rm", "p": hx(p)}, {"op": "symlink", "p": hx(p), "data": hx(new)}], "retarget"
